@@ -21,7 +21,11 @@ theorem write_data_code (k data pad : Bytes) (c : Nat) (hc : c < 4096)
   unfold writeV3I
   rw [if_pos rfl, ← CodecEq.encodeEncryptedRequest_eq, hp]
   simp only []
-  first | done | (congr 2 <;> omega)
+  first
+  | done
+  | (have e : ((c : Int) + 1) % 4096 = (((c + 1) % 4096 : Nat) : Int) := by omega
+     rw [e])
+  | (congr 2 <;> omega)
 
 /-- a packet type other than ENCRYPTED_REQUEST / HANDSHAKE_REQUEST: TypeError, nothing handed to the transport -/
 theorem write_bad_type_code (key : Option Bytes) (c : Int) (data pad : Bytes) (t : Int) (h6 : t ≠ 6) (h0 : t ≠ 0) :
@@ -62,8 +66,8 @@ theorem counters_consecutive_code (k : Bytes) (ds : List (Bytes × Bytes)) (hds 
       simp only []
       rw [hps]
       simp only [List.length_cons]
-      congr 3
-      omega
+      have e : ((c + 1) % 4096 + t.length) % 4096 = (c + (t.length + 1)) % 4096 := by omega
+      rw [e]
     · intro i h
       cases i with
       | zero => exact ⟨p, rfl, by simpa [Nat.mod_eq_of_lt hc] using hdec⟩
